@@ -847,7 +847,7 @@ def _sample_n(w, o, method):
     w.extra["pred_fault_fired"] = False
     kw = {"post_select": ps, "min_detection": o.get("md", 0)}
     if "seed" in o:
-        kw["seed"] = o["seed"]
+        kw["seed"] = val(w, o["seed"])
     r = w.call(getattr(s, method), o["n"], **kw)
     if o.get("twice") is not None:
         _perturb_between(w, o)
@@ -875,7 +875,7 @@ def _quick_n_outputs(w, o):
     w.extra["pred_fault_fired"] = False
     kw = {}
     if "seed" in o:
-        kw["seed"] = o["seed"]
+        kw["seed"] = val(w, o["seed"])
     r = w.call(q.sample_N_outputs, o["n"], **kw)
     if o.get("twice") is not None:
         _perturb_between(w, o)
